@@ -21,7 +21,7 @@ fn utf8_le3(buf: &mut [u8; 3]) -> Option<&str> {
     std::str::from_utf8(&buf[..len]).ok()
 }
 
-/// @harness id=k_word3 props=C11 tier=quick unwind=5 mem=8 cap=600
+/// @harness id=k_word3 props=C11 tier=thorough unwind=5 mem=24 cap=2400
 /// extract_word_at_position(any valid UTF-8 <= 3 bytes, any usize column): no panic; a returned word is
 /// a non-empty substring.
 #[cfg_attr(kani, kani::proof)]
@@ -97,20 +97,42 @@ macro_rules! doc_case {
         std::mem::forget(out);
     }};
 }
-/// @harness id=k_docstring_classes props=C11 tier=quick unwind=12 mem=8 cap=900
-/// format_docstring("a\n" + X + "b\n" + Y + "c") for X, Y over {"", " ", tab, EM SPACE (3-byte Unicode
-/// whitespace), e-acute (2-byte letter), two spaces, NBSP+space}: 49 concrete templates chosen by two symbolic
-/// selectors, each its own call site. No panic.
-#[cfg_attr(kani, kani::proof)]
-#[cfg_attr(kani, kani::stub(core::unicode::unicode_data::white_space::lookup, stubs::uni_white_space))]
-pub fn k_docstring_classes() {
-    stubs::draw_uni_mask();
-    let a: u8 = any(); let b: u8 = any();
-    assume(a < 7 && b < 7);
-    macro_rules! row { ($x:expr) => { match b { 0 => doc_case!($x, 0), 1 => doc_case!($x, 1), 2 => doc_case!($x, 2), 3 => doc_case!($x, 3), 4 => doc_case!($x, 4), 5 => doc_case!($x, 5), _ => doc_case!($x, 6) } } }
-    match a { 0 => row!(0), 1 => row!(1), 2 => row!(2), 3 => row!(3), 4 => row!(4), 5 => row!(5), _ => row!(6) }
-    reach!("k_docstring_classes.end");
+macro_rules! doc_row {
+    ($id:ident, $a:expr) => {
+        #[cfg_attr(kani, kani::proof)]
+        #[cfg_attr(kani, kani::stub(core::unicode::unicode_data::white_space::lookup, stubs::uni_white_space))]
+        #[cfg_attr(kani, kani::stub(core::slice::memchr::memchr, stubs::memchr_bytewise))]
+        pub fn $id() {
+            stubs::draw_uni_mask();
+            let b: u8 = any();
+            assume(b < 7);
+            match b { 0 => doc_case!($a, 0), 1 => doc_case!($a, 1), 2 => doc_case!($a, 2), 3 => doc_case!($a, 3), 4 => doc_case!($a, 4), 5 => doc_case!($a, 5), _ => doc_case!($a, 6) }
+            reach!("k_docstring.end");
+        }
+    };
 }
+/// @harness id=k_docstring_space props=C11 tier=quick unwind=12 mem=8 cap=900
+/// format_docstring("a\n" + " " + "b\n" + Y + "c") for Y over {"", " ", tab, EM SPACE (3-byte Unicode whitespace),
+/// e-acute (2-byte letter), two spaces, NBSP+space}: 7 concrete templates chosen by a symbolic selector. No panic.
+doc_row!(k_docstring_space, 1);
+/// @harness id=k_docstring_emspace props=C11 tier=quick unwind=12 mem=8 cap=900
+/// same with X = EM SPACE (U+2003) as the second line's indentation.
+doc_row!(k_docstring_emspace, 3);
+/// @harness id=k_docstring_two_spaces props=C11 tier=quick unwind=12 mem=8 cap=900
+/// same with X = two spaces.
+doc_row!(k_docstring_two_spaces, 5);
+/// @harness id=k_docstring_none props=C11 tier=thorough unwind=12 mem=8 cap=900
+/// same with X = "" (no indentation).
+doc_row!(k_docstring_none, 0);
+/// @harness id=k_docstring_tab props=C11 tier=thorough unwind=12 mem=8 cap=900
+/// same with X = tab.
+doc_row!(k_docstring_tab, 2);
+/// @harness id=k_docstring_letter props=C11 tier=thorough unwind=12 mem=8 cap=900
+/// same with X = e-acute.
+doc_row!(k_docstring_letter, 4);
+/// @harness id=k_docstring_nbsp props=C11 tier=thorough unwind=12 mem=8 cap=900
+/// same with X = NBSP + space.
+doc_row!(k_docstring_nbsp, 6);
 
 // ---------------------------------------------------------------------------------------------
 /// sorted line index with index[0] == 0 and <= 4 lines, any offset
@@ -144,7 +166,7 @@ pub fn k_line_index() {
 }
 
 // ---------------------------------------------------------------------------------------------
-/// @harness id=k_insertion_bytes props=C11,C17 tier=quick unwind=9 mem=8 cap=900
+/// @harness id=k_insertion_bytes props=C11,C17 tier=quick unwind=24 mem=8 cap=900
 /// get_function_param_insertion_info on a one-line file of 6 symbolic bytes over the alphabet
 /// { '(' ')' ':' ' ' 'x' '#' ',' e-acute(2 bytes) }, function_line in 0..=2: no panic; a returned position
 /// lies on the line and points at a ')' that is followed by ':'.
@@ -213,7 +235,7 @@ pub fn k_fn_name_pos() {
 }
 
 // ---------------------------------------------------------------------------------------------
-/// @harness id=k_stale_spans props=C11 tier=quick unwind=6 mem=12 cap=1200
+/// @harness id=k_stale_spans props=C11 tier=quick unwind=24 mem=12 cap=1200
 /// Position queries on an index whose spans are STALE: a usage of `f` (any span 0 <= s < e <= 6 on line 1) and
 /// a definition of `f` on line 1 were recorded for an earlier version; file_cache now holds any valid UTF-8
 /// text of <= 3 bytes (what analyze_file leaves behind after an unparsable edit). find_fixture_definition,
